@@ -28,6 +28,7 @@ func init() {
 				"(3) every store that can turn the wait predicate from false to true is followed by Broadcast on every path (signal-on-change), stores that cannot are exempted one by one with the invariant that justifies it; " +
 				"(4) the refusing returns (ErrGateIntegrity) are reached with no store executed; (5) cancellation is sticky: Reset re-arms only when not cancelled and only Clear un-cancels; " +
 				"(6) the flow objects fan Cancel/Clear/InitializeBarriers out to every gate field, pair each arrival with the await on the same gate, and construct the gates with the documented initial counts. " +
+				"Added after the blind rounds: the signal-on-change classification knows when arrived <= count may be broken; Clear re-initialises every field unconditionally; the deadline wait returns the waiter's result or the timeout error. " +
 				"NOT decided: that the sequential semantics of each method equals the abstract latch (needs symbolic execution), fairness, and the behaviour of sync.Cond itself.",
 			RuleText:    "obligations are enumerated from the type-checked program: one per (gate method x rule), per (store to a predicate field), per (flow struct x fan-out method x Gate-typed field), per arrival/await pair, per NewGate call; an obligation is non-trivial when it inspected at least one instruction or field",
 			Assumptions: append([]string{"invariant arrived <= count of gateImpl (established by the WalkThrough/SetCount refusals checked here) is used to exempt stores that move away from the wait predicate"}, trusted...),
